@@ -636,4 +636,136 @@ def _parse_phase_rest(
                 if key_word.arg == "help" and key_word.value""", """                get_value(key_word.value).replace("%%", "%")
                 for key_word in expr.value.keywords
                 if key_word.arg == "help" and key_word.value""")]),
+    # ------------------------------------------------------------------ round 3 additions
+    dict(id="firstmatch-deque-last", kind=B, props=["C07", "C19"], expect="FIRST-MATCH", edits=[("parse.py",
+         """    function_def = next(
+        filter(
+            lambda func: func.name == merge_inner_function,
+            filter(rpartial(isinstance, FunctionDef), ast.walk(class_def)),
+        ),
+        None,
+    )""", """    function_def = (
+        [
+            func
+            for func in ast.walk(class_def)
+            if isinstance(func, FunctionDef) and func.name == merge_inner_function
+        ]
+        or [None]
+    )[-1]""")]),
+    dict(id="firstmatch-loop-break", kind=N, props=["C07", "C19"], expect="silent", edits=[("parse.py",
+         """    function_def = next(
+        filter(
+            lambda func: func.name == merge_inner_function,
+            filter(rpartial(isinstance, FunctionDef), ast.walk(class_def)),
+        ),
+        None,
+    )""", """    function_def = None
+    for func in ast.walk(class_def):
+        if isinstance(func, FunctionDef) and func.name == merge_inner_function:
+            function_def = func
+            break""")]),
+    dict(id="firstmatch-loop-keeps-going", kind=B, props=["C07", "C19"], expect="FIRST-MATCH", edits=[("parse.py",
+         """    function_def = next(
+        filter(
+            lambda func: func.name == merge_inner_function,
+            filter(rpartial(isinstance, FunctionDef), ast.walk(class_def)),
+        ),
+        None,
+    )""", """    function_def = None
+    for func in ast.walk(class_def):
+        if isinstance(func, FunctionDef) and func.name == merge_inner_function:
+            function_def = func""")]),
+    dict(id="modf2-replacement-from-cache", kind=B, props=["C09", "C13"], expect="MOD-F2", edits=[("conformance.py",
+         """    replacement_node = emit_func(
+        replacement_node_ir,
+        **_default_options(node=original_node, search=search, type_wanted=type_wanted)()
+    )""", """    key = emit_func.__name__, tuple(search)
+    if key not in _EMITTED:
+        _EMITTED[key] = emit_func(
+            replacement_node_ir,
+            **_default_options(node=original_node, search=search, type_wanted=type_wanted)()
+        )
+    replacement_node = _EMITTED[key]"""), ("conformance.py", """def _default_options(node, search, type_wanted):""", """_EMITTED = {}
+
+
+def _default_options(node, search, type_wanted):""")]),
+    dict(id="modf2-replacement-deepcopied", kind=N, props=["C09", "C13"], expect="silent", edits=[("conformance.py",
+         """    replacement_node = emit_func(
+        replacement_node_ir,
+        **_default_options(node=original_node, search=search, type_wanted=type_wanted)()
+    )""", """    emitted_node = emit_func(
+        replacement_node_ir,
+        **_default_options(node=original_node, search=search, type_wanted=type_wanted)()
+    )
+    replacement_node = deepcopy(emitted_node)"""), ("conformance.py", """from os import path
+""", """from copy import deepcopy
+from os import path
+""")]),
+    dict(id="det3-transformer-on-own-attribute", kind=B, props=["C12", "C09"], expect="DET-3", edits=[("ast_utils.py",
+         """    def generic_visit(self, node):
+        \"\"\"
+        visits the `AST`, if it's the right one, replace it""", """    def again(self):
+        \"\"\"
+        Run the replacement over the tree seen last time
+
+        :returns: the tree
+        :rtype: ```AST```
+        \"\"\"
+        return self.visit(self.last_tree)
+
+    def generic_visit(self, node):
+        \"\"\"
+        visits the `AST`, if it's the right one, replace it""")]),
+    dict(id="file2-split-existing-file-helper", kind=N, props=["C09", "C10", "C11", "C20"], expect="silent", edits=[("conformance.py",
+         """        if rewrite_at_query.replaced:
+            emit.file(parsed_ast, filename, mode="wt", skip_black=False)
+
+        replaced = rewrite_at_query.replaced
+
+    return filename, replaced""", """        _write_back(rewrite_at_query.replaced, parsed_ast, filename)
+
+        replaced = rewrite_at_query.replaced
+
+    return filename, replaced
+
+
+def _write_back(replaced, parsed_ast, filename):
+    \"\"\"
+    Write the tree back when something was replaced
+
+    :param replaced: whether something was replaced
+    :type replaced: ```bool```
+
+    :param parsed_ast: the tree
+    :type parsed_ast: ```Module```
+
+    :param filename: where to
+    :type filename: ```str```
+    \"\"\"
+    if replaced:
+        emit.file(parsed_ast, filename, mode="wt", skip_black=False)""")]),
+    dict(id="file2-helper-writes-unconditionally", kind=B, props=["C10"], expect="FILE-2", edits=[("conformance.py",
+         """        if rewrite_at_query.replaced:
+            emit.file(parsed_ast, filename, mode="wt", skip_black=False)
+
+        replaced = rewrite_at_query.replaced
+
+    return filename, replaced""", """        _write_back(parsed_ast, filename)
+
+        replaced = rewrite_at_query.replaced
+
+    return filename, replaced
+
+
+def _write_back(parsed_ast, filename):
+    \"\"\"
+    Write the tree back
+
+    :param parsed_ast: the tree
+    :type parsed_ast: ```Module```
+
+    :param filename: where to
+    :type filename: ```str```
+    \"\"\"
+    emit.file(parsed_ast, filename, mode="wt", skip_black=False)""")]),
 ]
